@@ -783,6 +783,36 @@ def check_apply_state_writes(ctx, repo, mods, eng):
                     ctx.ok("R7", tag, "no in-place write into an object stored on self (%s)" % role, ctx.loc(k.module, fn), nontrivial=False)
 
 
+GROWTH = ("inplace-method:append", "inplace-method:extend", "inplace-method:insert", "inplace-method:add", "augassign")
+
+
+def check_fit_accumulation(ctx, repo, mods, eng):
+    """R6 (b) (history clause H1): a collection that fit grows in place (append / extend / insert / add / +=) is re-created by fit before it
+    is grown.  Growing the object that is stored on self when fit starts (left by __init__ or by an earlier fit) makes the fitted
+    collection the concatenation of all fits so far: est.fit(X, y).fit(X, y) differs from a fresh estimator fitted once."""
+    for m in mods:
+        for c in classes_of(repo, m):
+            hit = repo.lookup_method(c, "fit")
+            if hit is None or hit[0].is_static("fit"):
+                continue
+            k, fn = hit
+            s_ = eng.summary(fn, k.module, c, k)
+            groups = {}
+            for ev in s_.events:
+                if ev.kind == "write" and ev.sure and ev.via == "A" and ev.origin.startswith("self.") and ev.desc in GROWTH:
+                    groups.setdefault(ev.origin, []).append(ev)
+            tag = "%s.fit" % c.name
+            for origin, evs in sorted(groups.items()):
+                where = "; ".join(sorted({"%s (%s)%s" % (e.loc, e.desc.split(":")[-1], (" via " + "->".join(e.chain)) if e.chain else "") for e in evs}))
+                ctx.violation("R6", "%s:accumulates:%s" % (tag, origin),
+                              "%s grows the collection stored in %s in place without re-creating it first [%s]: the members of an earlier fit stay "
+                              "in it, so history est.fit(X, y); est.fit(X, y) yields a different fitted collection (length, members, everything "
+                              "derived from it) than a fresh estimator with equal parameters fitted once" % (tag, origin, where), evs[0].loc,
+                              witness={"attribute": origin, "sites": where, "history": "fit(X, y); fit(X, y)"})
+            if not groups:
+                ctx.ok("R6", tag + ":accumulates", "every collection fit grows in place is re-created by fit first", ctx.loc(k.module, fn), nontrivial=False)
+
+
 def check_derived_state(ctx, repo, mods):
     """R6: an attribute whose stored value is computed from fitted state F (cache / derived quantity) must be re-derived or reset by every
     public method that re-estimates F; otherwise results depend on the history of the estimator, not only on parameters and data."""
@@ -1509,6 +1539,7 @@ def run(ctx):
     check_member_seed(ctx, repo, mods)
     check_reentrancy(ctx, repo, mods)
     check_derived_state(ctx, repo, mods)
+    check_fit_accumulation(ctx, repo, mods, eng)
     check_apply_state_writes(ctx, repo, mods, eng)
     check_pickle(ctx, repo, mods)
     check_reduce(ctx, repo, mods)
